@@ -304,12 +304,59 @@ def tracker(F, R):
         R.ob('MUST-CALL', 'MUST-CALL::%s::inserts-entry-for-unknown-path' % fnkey(g), len(ins) >= 1, 'new_cleaning_up inserts a tracker entry when none exists (%d insertion site(s))' % len(ins), ins[0].where if ins else g.file, g)
 
 
+def unlink_before_close(F, R):
+    """File::remove_self (used by StateFiles::drop to tear the monitor files down): the path is unlinked BEFORE the descriptor is closed.
+    Closing first releases the advisory lock while the file still exists: a monitor of another process sees an unlocked state file = Dead
+    for a process that is merely shutting down, and a cleaner can be acquired."""
+    fs = F.find_fns(r'^iceoryx2_bb_posix::file::File::remove_self$')
+    if len(fs) != 1:
+        R.missing('File::remove_self')
+        return
+    f = fs[0]
+    rm = f.calls(r'file::File::remove$')
+    reach = set(f.reachable(0))
+    drops = []
+    for b in range(len(f.blocks)):
+        t = f.blocks[b]['t']
+        if b in reach and t[0] == 'drop' and 'posix::file::File' in str(t[-2] if isinstance(t[-2], str) else t) and 'Builder' not in str(t[-2]):
+            drops.append(f.term_site(b))
+    drops += f.calls(r'core::mem::drop$')
+    bad = [d for d in drops if any(f.exists_path(d, [r_], []) is not None for r_ in rm)]
+    R.ob('DOM', 'DOM::%s::unlink<close' % fnkey(f), bool(rm) and not bad, 'File::remove(path) (%d site(s)) is not reachable after the descriptor was dropped/closed (%d drop site(s) precede it): unlink first, close second' % (len(rm), len(bad)), rm[0].where if rm else f.file, f)
+
+
+def tracked_state_is_authoritative(F, R):
+    """ProcessMonitor::state(): when the in-process tracker knows the path, the answer comes from the tracker on EVERY path - no fall-through to
+    the files (opening and closing a second descriptor of a file this process holds a lock on releases that lock)."""
+    f = F.fn(PS + 'ProcessMonitor::state')
+    gets = [c for c in f.calls(r'BTreeMap::<.*>::get$')]
+    opens = f.calls(r'ProcessMonitor::open_file$')
+    key = 'NO-PATH::%s::tracker-hit-never-opens-files' % fnkey(f)
+    if len(gets) != 1 or not opens:
+        R.ob('NO-PATH', key, False, 'anchor-missing: tracker lookup (%d) / file opens (%d)' % (len(gets), len(opens)), f.file, f)
+        return
+    found = False
+    for b in range(len(f.blocks)):
+        si = f.switch_info(b)
+        if si and 'discr_of' in si:
+            p_ = f.prov_place(si['discr_of'])
+            if p_.root[0] == 'call' and p_.root[1].key() == gets[0].key() and not [x for x in p_.path if x != '*']:
+                for lab, tgt in lib.arm_blocks(f, b, lambda l: l == 'Some', F):
+                    found = True
+                    pth = f.exists_path(core.Site(f, tgt, -1, ['arm']), opens, [])
+                    R.ob('NO-PATH', key, pth is None, 'from the Some(entry) arm of the tracker lookup no file open is reachable%s' % ('' if pth is None else ' -- path %s (a tracked path must be answered from the tracker, whatever its flags)' % pth), gets[0].where, f)
+    if not found:
+        R.ob('NO-PATH', key, False, 'anchor-missing: no match on the tracker lookup result', gets[0].where, f)
+
+
 def check(F, R, tier):
     guard_create(F, R)
     state_files(F, R)
     monitor_state(F, R)
     cleaner_new(F, R)
     tracker(F, R)
+    unlink_before_close(F, R)
+    tracked_state_is_authoritative(F, R)
     stale_cleanup(F, R)
 
 
